@@ -2,10 +2,17 @@ import BreezyVerif.Lemmas.C34
 /-!
 C34 — importing then exporting a git commit reproduces it.
 
-`exp_imp_id_partial`: for EVERY commit record (any field values, any number of
-parents / mergetags / extra headers, any of the modelled encodings, strict or
-not) that `import_commit` accepts and that is `Canon`, `export_commit` of the
-imported revision is exactly the original record.  `Canon` excludes the three
+`exp_imp_id_partial`: for EVERY codec environment (Python's codec registry and
+the behaviour of all its codecs other than utf-8 / latin-1 / ascii are a
+parameter `env : Env` about which only `PyEnv` — the names "utf-8" and "latin1"
+mean what they say — is assumed) and EVERY commit record (any field values, any
+number of parents / mergetags / extra headers, any `encoding` header, strict or
+not) that `import_commit` accepts, that is `Canon` and whose header codec is
+`CodecFaithful` on the commit's text (automatic for every alias of utf-8 /
+latin-1 / ascii, `std_codec_faithful`; FALSE for codecs whose decode is not
+injective — finding `encoding-noninjective-codec`,
+`encoding_noninjective_codec_witness`), `export_commit` of the imported revision
+is exactly the original record.  `Canon` excludes the three
 input families on which the code does not round-trip (each has a `_witness`
 theorem and is reproduced on the real code by the check): missing message,
 person identifiers that are not a fixed point of `fix_person_identifier`,
@@ -31,14 +38,16 @@ theorem fixPerson_ne_nil {t : Bytes} (h : fixPerson t = some t) : t ≠ [] := by
   rintro rfl
   exact absurd h (by decide)
 
-/-- **Round trip** (partial: on `Canon` commits, see the `_witness` theorems). -/
-theorem exp_imp_id_partial (strict : Bool) (id : Bytes) (c : Commit) (rev : Rev)
-    (himp : importCommit strict id c = .ok rev) (hcanon : Canon c = true) :
-    exportCommit rev c.tree = .ok c := by
+/-- **Round trip** (partial: on `Canon` commits with a `CodecFaithful` header
+codec, see the `_witness` theorems). -/
+theorem exp_imp_id_partial (env : Env) (fx strict : Bool) (id : Bytes) (c : Commit) (rev : Rev)
+    (hwf : PyEnv env) (himp : importCommit env fx strict id c = .ok rev) (hcanon : Canon c = true)
+    (hcodec : CodecFaithful env c = true) :
+    exportCommit env rev c.tree = .ok c := by
   simp only [Canon, Bool.and_eq_true, decide_eq_true_eq, List.all_eq_true] at hcanon
   obtain ⟨⟨⟨⟨⟨⟨hmsg, hfc⟩, hfa⟩, hfirst⟩, hsig⟩, hpar⟩, hextra⟩ := hcanon
   unfold importCommit at himp
-  cases hd : importDecode c with
+  cases hd : importDecode env fx strict c with
   | error e => simp [hd] at himp
   | ok p =>
     obtain ⟨⟨cm, au, msg⟩, impl⟩ := p
@@ -51,22 +60,34 @@ theorem exp_imp_id_partial (strict : Bool) (id : Bytes) (c : Commit) (rev : Rev)
       obtain ⟨hls, hun⟩ := importExtra_ok strict c.extra ls un hextra hx
       subst hun
       simp only [ne_eq, not_true_eq_false, false_and, if_false, Except.ok.injEq] at himp
-      obtain ⟨k, hk, rfl, rfl, rfl⟩ := importDecode_ok hd
+      obtain ⟨hdu, hname⟩ := importDecode_ok hwf hd
+      obtain ⟨hcm, hau, hms⟩ := decodeUsing_ok hdu
+      have hne : c.author ≠ [] := fixPerson_ne_nil hfa
+      -- the codec export will use re-encodes what import decoded
+      have hfaith : Faith env (encName c.encoding impl) c := by
+        rcases hname with hstd | ⟨e, he, hf, hn⟩
+        · exact faith_of_std hstd hne hfirst
+        · rw [hn]; exact faith_of_codecFaithful he hf hcodec
       obtain ⟨m, hm⟩ := Option.isSome_iff_exists.mp hmsg
+      obtain ⟨sm, rfl, hdm⟩ : ∃ s, msg = some s ∧ decodeName env (encName c.encoding impl) m = .ok s := by
+        rcases hms with ⟨_, h0⟩ | ⟨m', s, h1, h2, h3⟩
+        · rw [hm] at h0; cases h0
+        · rw [hm] at h1; cases h1; exact ⟨s, h2, h3⟩
       subst himp
       have hparents := exportParents_map c.parents (fun p hp => by simpa using hpar p hp)
-      have hne : c.author ≠ [] := fixPerson_ne_nil hfa
-      have hcomm : exportIdent k ⟨k, c.committer⟩ = .ok c.committer := by
-        simp [exportIdent, encode, hfc]
-      have hauth : ∀ (rev : Rev), rev.committer = ⟨k, c.committer⟩ →
-          rev.props.author = (if c.committer ≠ c.author then some ⟨k, c.author⟩ else none) →
-          exportAuthor k rev = .ok c.author := by
+      have hcomm : exportIdent env (encName c.encoding impl) cm = .ok c.committer := by
+        simp [exportIdent, hfaith.committer cm hcm, hfc]
+      have hauth : ∀ (rev : Rev), rev.committer = cm → rev.props.author = au →
+          exportAuthor env (encName c.encoding impl) rev = .ok c.author := by
         intro rev h1 h2
         unfold exportAuthor
         rw [h1, h2]
-        by_cases h : c.committer = c.author
-        · simp [h, hne, hfirst, exportIdent, encode, hfa]
-        · simp [h, hne, hfirst, exportIdent, encode, hfa]
+        rcases hau with ⟨rfl, hca⟩ | ⟨sa, rfl, _, hda⟩
+        · rw [hca] at hcm
+          obtain ⟨f1, f2, f3⟩ := hfaith.author cm hcm
+          simp [f1, f2, exportIdent, f3, hfa]
+        · obtain ⟨f1, f2, f3⟩ := hfaith.author sa hda
+          simp [f1, f2, exportIdent, f3, hfa]
       have hgpg : exportGpgsig (importGpgsig c.gpgsig) = .ok c.gpgsig := by
         cases hg : c.gpgsig with
         | none => rfl
@@ -81,21 +102,129 @@ theorem exp_imp_id_partial (strict : Bool) (id : Bytes) (c : Commit) (rev : Rev)
           simp only [this, ne_eq, not_false_eq_true, if_true, exportGitExtra, encode]
           rw [hls]
           exact extra_roundtrip c.extra hextra
-      have hmm : (match (Option.map (fun m => (⟨k, m⟩ : PStr)) c.message) with
-          | some m => m
-          | none => ⟨k, []⟩) = ⟨k, m⟩ := by rw [hm]; rfl
+      have hmsg' : encodeName env (encName c.encoding impl) sm = .ok m := hfaith.message m sm hm hdm
       unfold exportCommit
-      simp only [importProps, hparents, hk, hcomm, hgpg, hextra', hmm, hm, Option.map_some,
-        Option.isNone_some, mapM_encode_se, encode, if_true]
+      simp only [importProps, hparents, hcomm, hgpg, hextra', hmsg', Option.isNone_some,
+        mapM_encode_se]
       rw [hauth _ rfl rfl]
       simp only [Bool.false_eq_true, if_false, Except.ok.injEq]
       cases c
       simp_all
       constructor <;> split <;> simp_all
 
+/-- every alias of utf-8 / latin-1 / ascii is faithful on every `Canon` commit: for
+those the round trip needs no codec hypothesis (this is what makes `UTF_8`, `l1`,
+`cp819`, `u8` … work) -/
+theorem std_codec_faithful (env : Env) (c : Commit) (e : Bytes) (he : c.encoding = some e)
+    (hstd : isStd (env.lookup e) = true) (hcanon : Canon c = true) : CodecFaithful env c = true := by
+  simp only [Canon, Bool.and_eq_true, decide_eq_true_eq, List.all_eq_true] at hcanon
+  obtain ⟨⟨⟨⟨⟨⟨_, _⟩, hfa⟩, hfirst⟩, _⟩, _⟩, _⟩ := hcanon
+  have hf := faith_of_std (env := env) (name := e) (c := c) hstd (fixPerson_ne_nil hfa) hfirst
+  have h1 : faithful env e c.committer = true := by
+    unfold faithful reenc; split
+    · rename_i s hd; simpa using hf.committer s hd
+    · rfl
+  have h2 : faithfulAuthor env e c.author = true := by
+    unfold faithfulAuthor; split
+    · rename_i s hd
+      obtain ⟨a, b, d⟩ := hf.author s hd
+      simp [a, b, d]
+    · rfl
+  unfold CodecFaithful
+  simp only [he]
+  by_cases hfl : e = bs "false"
+  · simp [hfl]
+  · simp only [hfl, if_false, h1, h2, Bool.and_self, Bool.true_and]
+    cases hm : c.message with
+    | none => rfl
+    | some m =>
+      show faithful env e m = true
+      unfold faithful reenc; split
+      · rename_i s hd; simpa using hf.message m s hm hd
+      · rfl
+
+/-- the round trip for commits without an `encoding` header, with `encoding false`,
+or with any name the registry resolves to utf-8 / latin-1 / ascii -/
+theorem exp_imp_id_std_partial (env : Env) (fx strict : Bool) (id : Bytes) (c : Commit) (rev : Rev)
+    (hwf : PyEnv env) (himp : importCommit env fx strict id c = .ok rev) (hcanon : Canon c = true)
+    (hstd : ∀ e, c.encoding = some e → e = bs "false" ∨ isStd (env.lookup e) = true) :
+    exportCommit env rev c.tree = .ok c := by
+  refine exp_imp_id_partial env fx strict id c rev hwf himp hcanon ?_
+  cases he : c.encoding with
+  | none => simp [CodecFaithful, he]
+  | some e =>
+    rcases hstd e he with hf | hs
+    · simp [CodecFaithful, he, hf]
+    · exact std_codec_faithful env c e he hs hcanon
+
+/-- what a re-encode check of the bytes cannot see: the decoded author str is
+non-empty and is not cut by the `"," … ">"` hack of `export_commit` (for the
+standard codecs this is part of `Canon`) -/
+def AuthorStrCanon (env : Env) (c : Commit) : Bool :=
+  match c.encoding with
+  | some e =>
+    if e = bs "false" then true
+    else match decodeName env e c.author with
+      | .ok s => decide (s.bytes ≠ []) && decide (firstAuthor s.bytes = s.bytes)
+      | .error _ => true
+  | none => true
+
+/-- **Variant with the proposed fix** (`fx = true`: strict import refuses a header
+codec that does not reproduce the text): every commit a strict import accepts has
+a `CodecFaithful` header codec, up to the author-str condition -/
+theorem fixed_strict_codec_faithful (env : Env) (id : Bytes) (c : Commit) (rev : Rev)
+    (himp : importCommit env true true id c = .ok rev) (ha : AuthorStrCanon env c = true) :
+    CodecFaithful env c = true := by
+  unfold importCommit at himp
+  cases hd : importDecode env true true c with
+  | error e => simp [hd] at himp
+  | ok p =>
+    unfold importDecode at hd
+    unfold CodecFaithful
+    unfold AuthorStrCanon at ha
+    cases he : c.encoding with
+    | none => rfl
+    | some e =>
+      simp only [he] at hd ha ⊢
+      by_cases hf : e = bs "false"
+      · simp [hf]
+      · simp only [hf, if_false] at ha ⊢
+        by_cases hasc : isAscii e = true
+        · simp only [hasc, Bool.not_true, Bool.false_eq_true, if_false, ne_eq, hf, not_false_eq_true,
+            if_true] at hd
+          cases hdu : decodeUsing env e c with
+          | error x => simp [hdu] at hd
+          | ok d =>
+            simp only [hdu, Bool.and_self, Bool.true_and] at hd
+            by_cases hr : reencodes env e c = true
+            · unfold reencodes at hr
+              simp only [Bool.and_eq_true] at hr
+              obtain ⟨⟨h1, h2⟩, h3⟩ := hr
+              have hA : faithfulAuthor env e c.author = true := by
+                unfold faithfulAuthor
+                unfold reenc at h2
+                cases hda : decodeName env e c.author with
+                | error x => rfl
+                | ok s =>
+                  simp only [hda] at h2 ha ⊢
+                  simp only [Bool.and_eq_true] at ha ⊢
+                  exact ⟨ha, h2⟩
+              simp only [faithful, h1, hA, Bool.and_self, Bool.true_and]
+              exact h3
+            · simp [hr] at hd
+        · simp [hasc] at hd
+
+/-- the round trip in the variant with the fix, strict mode: no codec hypothesis -/
+theorem exp_imp_id_fixed_strict_partial (env : Env) (id : Bytes) (c : Commit) (rev : Rev)
+    (hwf : PyEnv env) (himp : importCommit env true true id c = .ok rev) (hcanon : Canon c = true)
+    (ha : AuthorStrCanon env c = true) :
+    exportCommit env rev c.tree = .ok c :=
+  exp_imp_id_partial env true true id c rev hwf himp hcanon
+    (fixed_strict_codec_faithful env id c rev himp ha)
+
 /-- the revision id depends on the sha only -/
-theorem revid_stable (strict : Bool) (id : Bytes) (c : Commit) (rev : Rev)
-    (himp : importCommit strict id c = .ok rev) : rev.revisionId = bs "git-v1:" ++ id := by
+theorem revid_stable (env : Env) (fx strict : Bool) (id : Bytes) (c : Commit) (rev : Rev)
+    (himp : importCommit env fx strict id c = .ok rev) : rev.revisionId = bs "git-v1:" ++ id := by
   unfold importCommit at himp
   split at himp
   · simp at himp
@@ -107,15 +236,15 @@ theorem revid_stable (strict : Bool) (id : Bytes) (c : Commit) (rev : Rev)
         subst himp
         rfl
 
-theorem revid_independent (s s' : Bool) (id : Bytes) (c c' : Commit) (rev rev' : Rev)
-    (h : importCommit s id c = .ok rev) (h' : importCommit s' id c' = .ok rev') :
+theorem revid_independent (env env' : Env) (fx fx' s s' : Bool) (id : Bytes) (c c' : Commit) (rev rev' : Rev)
+    (h : importCommit env fx s id c = .ok rev) (h' : importCommit env' fx' s' id c' = .ok rev') :
     rev.revisionId = rev'.revisionId := by
-  rw [revid_stable s id c rev h, revid_stable s' id c' rev' h']
+  rw [revid_stable env fx s id c rev h, revid_stable env' fx' s' id c' rev' h']
 
 /-- strict import refuses a commit with an extra header it does not know -/
-theorem imp_rejects_unknown_extra (id : Bytes) (c : Commit) (k v : Bytes)
+theorem imp_rejects_unknown_extra (env : Env) (fx : Bool) (id : Bytes) (c : Commit) (k v : Bytes)
     (hk : k ≠ bs "HG:rename-source" ∧ k ≠ bs "HG:extra") (hmem : (k, v) ∈ c.extra) :
-    ∀ rev, importCommit true id c ≠ .ok rev := by
+    ∀ rev, importCommit env fx true id c ≠ .ok rev := by
   intro rev h
   unfold importCommit at h
   split at h
@@ -142,10 +271,38 @@ theorem imp_rejects_unknown_hg_extra (strict : Bool) (rest : List (Bytes × Byte
 /-! ### the excluded families are real failures (findings) -/
 
 /-- import followed by export -/
-def roundTrip (strict : Bool) (id : Bytes) (c : Commit) : Except Err (Except Err Commit) :=
-  match importCommit strict id c with
+def roundTripE (env : Env) (fx strict : Bool) (id : Bytes) (c : Commit) : Except Err (Except Err Commit) :=
+  match importCommit env fx strict id c with
   | .error e => .error e
-  | .ok rev => .ok (exportCommit rev c.tree)
+  | .ok rev => .ok (exportCommit env rev c.tree)
+
+def bom : Bytes := [0xef, 0xbb, 0xbf]
+
+/-- a concrete registry for the witnesses: the usual spellings of utf-8 / latin-1 /
+ascii plus two aliases, `utf-8-sig` (on decode a leading BOM is dropped, on encode
+one is prepended — what the real codec does on ASCII text), `x-rev` (an
+artificial bijective codec: the str is the reversed input) and nothing else -/
+def envW : Env where
+  lookup := fun n =>
+    if n = bs "utf-8" ∨ n = bs "UTF-8" ∨ n = bs "utf8" ∨ n = bs "UTF_8" then .utf8
+    else if n = bs "latin1" ∨ n = bs "latin-1" ∨ n = bs "iso-8859-1" ∨ n = bs "l1" then .latin1
+    else if n = bs "ascii" ∨ n = bs "us-ascii" then .ascii
+    else if n = bs "utf-8-sig" ∨ n = bs "x-rev" then .ext
+    else if n = bs "utf\x00" then .bad
+    else .unknown
+  dec := fun n b =>
+    if n = bs "utf-8-sig" then .ok (if bom.isPrefixOf b then b.drop 3 else b)
+    else if n = bs "x-rev" then .ok b.reverse
+    else .error .envMiss
+  enc := fun n r =>
+    if n = bs "utf-8-sig" then .ok (bom ++ r)
+    else if n = bs "x-rev" then .ok r.reverse
+    else .error .envMiss
+
+example : PyEnv envW := by decide
+
+def roundTrip (strict : Bool) (id : Bytes) (c : Commit) : Except Err (Except Err Commit) :=
+  roundTripE envW false strict id c
 
 def wCommit : Commit :=
   { tree := bs "cc9462f7f8263ef5adfbeff2fb936bb36b504cba", parents := [bs "aaaaaaaaaaaaaaaaaaaaaaaaaaaaaaaaaaaaaaaa"],
@@ -193,37 +350,190 @@ theorem git_extra_formfeed_roundtrips :
       .ok (.ok { wCommit with extra := [(bs "HG:rename-source", [97, 12, 98, 13, 0xe2, 0x80, 0xa8])] }) := by
   decide
 
-theorem decodeUsing_latin1_ok (c : Commit) : ∃ d, decodeUsing .latin1 c = .ok d := by
-  unfold decodeUsing
-  cases c.message <;> simp [decodable]
+/-- finding `encoding-noninjective-codec`: with `encoding utf-8-sig` the commit is
+accepted and comes back with a BOM in front of author, committer and message
+(also when the message is empty); an alias of a standard codec (`UTF_8`, `l1`)
+and a bijective environment codec round-trip -/
+theorem encoding_noninjective_codec_witness :
+    roundTrip true (bs "1234") { wCommit with encoding := some (bs "utf-8-sig") } =
+      .ok (.ok { wCommit with encoding := some (bs "utf-8-sig"), author := bom ++ bs "A <a@x>",
+                              committer := bom ++ bs "C <c@x>", message := some (bom ++ bs "msg\n") }) ∧
+    CodecFaithful envW { wCommit with encoding := some (bs "utf-8-sig") } = false ∧
+    roundTrip true (bs "1234") { wCommit with encoding := some (bs "utf-8-sig"), message := some [] } =
+      .ok (.ok { wCommit with encoding := some (bs "utf-8-sig"), author := bom ++ bs "A <a@x>",
+                              committer := bom ++ bs "C <c@x>", message := some bom }) ∧
+    roundTrip true (bs "1234") { wCommit with encoding := some (bs "l1") } =
+      .ok (.ok { wCommit with encoding := some (bs "l1") }) ∧
+    roundTrip true (bs "1234") { wCommit with encoding := some (bs "x-rev") } =
+      .ok (.ok { wCommit with encoding := some (bs "x-rev") }) := by
+  decide
 
-/-- (fixed in b3a449a) EVERY `Canon` commit with `encoding false` (and no extra
-headers) is accepted by import — the utf-8/latin-1 fallback cannot fail — and
-round-trips -/
-theorem encoding_false_roundtrips (strict : Bool) (id : Bytes) (c : Commit)
-    (he : c.encoding = some (bs "false")) (hx : c.extra = []) (hcanon : Canon c = true) :
-    ∃ rev, importCommit strict id c = .ok rev ∧ exportCommit rev c.tree = .ok c := by
-  have hd : ∃ d, importDecode c = .ok d := by
+/-- in the variant with the fix the `utf-8-sig` commit is refused by a strict import
+and a bijective codec is still accepted -/
+theorem fixed_variant_refuses_witness :
+    importCommit envW true true (bs "1234") { wCommit with encoding := some (bs "utf-8-sig") } =
+      .error .irreversible ∧
+    isOk (importCommit envW true true (bs "1234") { wCommit with encoding := some (bs "x-rev") }) = true ∧
+    AuthorStrCanon envW { wCommit with encoding := some (bs "x-rev") } = true := by
+  decide
+
+/-- non-vacuity of `exp_imp_id_partial` for an environment codec: all hypotheses
+hold for `x-rev` (and `canon_example_ok` for latin1) -/
+example : PyEnv envW ∧ Canon { wCommit with encoding := some (bs "x-rev") } = true ∧
+    CodecFaithful envW { wCommit with encoding := some (bs "x-rev") } = true ∧
+    (∃ rev, importCommit envW true true (bs "1234") { wCommit with encoding := some (bs "x-rev") } = .ok rev) := by
+  exact ⟨by decide, by decide, by decide, exists_of_isOk (by decide)⟩
+
+/-- an unknown codec name: import refuses (`UnknownCommitEncoding`); a name with an
+embedded NUL: `ValueError` -/
+theorem unknown_encoding_rejected :
+    roundTrip true (bs "1234") { wCommit with encoding := some (bs "klingon") } = .error .unknownEncoding ∧
+    roundTrip true (bs "1234") { wCommit with encoding := some (bs "utf\x00") } = .error .value := by
+  decide
+
+theorem decodeName_latin1_ok (env : Env) (hwf : PyEnv env) (b : Bytes) :
+    decodeName env (bs "latin1") b = .ok ⟨.latin1, b⟩ := by
+  unfold decodeName; rw [hwf.2]; simp [decode, decodable]
+
+theorem decodeUsing_latin1_ok (env : Env) (hwf : PyEnv env) (c : Commit) :
+    ∃ d, decodeUsing env (bs "latin1") c = .ok d := by
+  unfold decodeUsing
+  simp only [decodeName_latin1_ok env hwf]
+  by_cases h : c.committer = c.author
+  · simp only [h, ne_eq, not_true_eq_false, if_false]
+    cases c.message <;> exact ⟨_, rfl⟩
+  · simp only [h, ne_eq, not_false_eq_true, if_true, Except.map]
+    cases c.message <;> exact ⟨_, rfl⟩
+
+theorem decodeUsing_utf8_err (env : Env) (hwf : PyEnv env) (c : Commit) (e : Err)
+    (h : decodeUsing env (bs "utf-8") c = .error e) : e = .unicodeDecode := by
+  have hdn : ∀ b x, decodeName env (bs "utf-8") b = .error x → x = .unicodeDecode := by
+    intro b x hx
+    simp only [decodeName, hwf.1, decode] at hx
+    split at hx
+    · cases hx
+    · cases hx; rfl
+  unfold decodeUsing at h
+  cases hc : decodeName env (bs "utf-8") c.committer with
+  | error x =>
+    simp only [hc, Except.error.injEq] at h
+    rw [hdn _ _ hc] at h; exact h.symm
+  | ok cm =>
+    simp only [hc] at h
+    by_cases hca : c.committer = c.author
+    · simp only [hca, ne_eq, not_true_eq_false, if_false] at h
+      cases hm : c.message with
+      | none => simp [hm] at h
+      | some m =>
+        simp only [hm] at h
+        cases hd : decodeName env (bs "utf-8") m with
+        | error x => simp only [hd, Except.error.injEq] at h; rw [← h]; exact hdn _ _ hd
+        | ok s => simp [hd] at h
+    · simp only [hca, ne_eq, not_false_eq_true, if_true] at h
+      cases ha : decodeName env (bs "utf-8") c.author with
+      | error x =>
+        simp only [ha, Except.map, Except.error.injEq] at h
+        rw [hdn _ _ ha] at h; exact h.symm
+      | ok sa =>
+        simp only [ha, Except.map] at h
+        cases hm : c.message with
+        | none => simp [hm] at h
+        | some m =>
+          simp only [hm] at h
+          cases hd : decodeName env (bs "utf-8") m with
+          | error x => simp only [hd, Except.error.injEq] at h; rw [← h]; exact hdn _ _ hd
+          | ok s => simp [hd] at h
+
+/-- (fixed in b3a449a) EVERY `Canon` commit with `encoding false` whose extra
+headers import accepts is accepted — the utf-8/latin-1 fallback cannot fail — and
+round-trips, in every environment -/
+theorem encoding_false_roundtrips (env : Env) (hwf : PyEnv env) (fx strict : Bool) (id : Bytes) (c : Commit)
+    (he : c.encoding = some (bs "false")) (hx : ∃ p, importExtra strict c.extra = .ok p)
+    (hcanon : Canon c = true) :
+    ∃ rev, importCommit env fx strict id c = .ok rev ∧ exportCommit env rev c.tree = .ok c := by
+  have hd : ∃ d, importDecode env fx strict c = .ok d := by
     unfold importDecode decodeFallback
     rw [he]
     have : isAscii (bs "false") = true := by decide
     simp only [this, Bool.not_true, Bool.false_eq_true, if_false, ne_eq, not_true_eq_false]
-    cases h8 : decodeUsing .utf8 c with
+    cases h8 : decodeUsing env (bs "utf-8") c with
     | ok d => exact ⟨_, rfl⟩
     | error e =>
-      obtain ⟨d, hl⟩ := decodeUsing_latin1_ok c
+      obtain ⟨d, hl⟩ := decodeUsing_latin1_ok env hwf c
+      have := decodeUsing_utf8_err env hwf c e h8
+      subst this
       exact ⟨(d, some (bs "latin1")), by simp [hl, Except.map]⟩
   obtain ⟨⟨⟨cm, au, msg⟩, impl⟩, hd⟩ := hd
-  have hxx : importExtra strict c.extra = .ok ([], []) := by rw [hx]; rfl
-  cases hi : importCommit strict id c with
-  | ok rev => exact ⟨rev, rfl, exp_imp_id_partial strict id c rev hi hcanon⟩
+  obtain ⟨⟨ls, un⟩, hxx⟩ := hx
+  have hok : extraOK c.extra = true := by
+    simp only [Canon, Bool.and_eq_true] at hcanon; exact hcanon.2
+  obtain ⟨_, hun⟩ := importExtra_ok strict c.extra ls un hok hxx
+  cases hi : importCommit env fx strict id c with
+  | ok rev =>
+    exact ⟨rev, rfl, exp_imp_id_std_partial env fx strict id c rev hwf hi hcanon
+      (fun e h => Or.inl (by rw [he] at h; cases h; rfl))⟩
   | error e =>
     unfold importCommit at hi
-    simp only [hd, hxx] at hi
+    simp only [hd, hxx, hun] at hi
     simp at hi
 
-/-- non-vacuity of `encoding_false_roundtrips` -/
-example : Canon { wCommit with encoding := some (bs "false"), extra := [] } = true := by decide
+/-- non-vacuity of `encoding_false_roundtrips` (with extra headers) -/
+example : Canon { wCommit with encoding := some (bs "false") } = true ∧
+    (∃ p, importExtra true wCommit.extra = .ok p) := by
+  exact ⟨by decide, exists_of_isOk (by decide)⟩
+
+/-- **`get_revision_id` agrees with import**: for every commit `import_commit`
+accepts, `get_revision_id` does not raise and returns the id of the imported
+revision (so `revision id derived from a commit` is one value, `git-v1:`+sha) -/
+theorem get_revision_id_agrees (env : Env) (hwf : PyEnv env) (fx strict : Bool) (id : Bytes) (c : Commit)
+    (rev : Rev) (himp : importCommit env fx strict id c = .ok rev) :
+    getRevisionId env id c = .ok rev.revisionId ∧ rev.revisionId = bs "git-v1:" ++ id := by
+  have hrid := revid_stable env fx strict id c rev himp
+  refine ⟨?_, hrid⟩
+  rw [hrid]
+  have hfb : bs "git-v1:" ++ id = foreignToBzr id := rfl
+  rw [hfb]
+  have hu8 : ∀ m, revidOfDecode id (decodeName env (bs "utf-8") m) = .ok (foreignToBzr id) := by
+    intro m
+    simp only [decodeName, hwf.1, decode]
+    by_cases hdc : decodable .utf8 m = true <;> simp [hdc, revidOfDecode]
+  unfold importCommit at himp
+  cases hd : importDecode env fx strict c with
+  | error e => simp [hd] at himp
+  | ok p =>
+    obtain ⟨⟨cm, au, msg⟩, impl⟩ := p
+    unfold getRevisionId revidEncName
+    unfold importDecode at hd
+    cases he : c.encoding with
+    | none =>
+      cases hm : c.message with
+      | none => rfl
+      | some m => exact hu8 m
+    | some e =>
+      simp only [he] at hd
+      by_cases hasc : isAscii e = true
+      · by_cases hf : e = bs "false"
+        · simp only [hf, ne_eq, not_true_eq_false, and_false, if_false]
+          cases hm : c.message with
+          | none => rfl
+          | some m => exact hu8 m
+        · by_cases hnil : e = []
+          · simp only [hnil, ne_eq, not_true_eq_false, false_and, if_false]
+            cases hm : c.message with
+            | none => rfl
+            | some m => exact hu8 m
+          · simp only [hasc, Bool.not_true, Bool.false_eq_true, if_false, ne_eq, hf,
+              not_false_eq_true, if_true] at hd
+            simp only [ne_eq, hnil, not_false_eq_true, hf, and_self, if_true, hasc]
+            cases hdu : decodeUsing env e c with
+            | error x => simp [hdu] at hd
+            | ok d =>
+              obtain ⟨cm', au', msg'⟩ := d
+              obtain ⟨_, _, hms⟩ := decodeUsing_ok hdu
+              rcases hms with ⟨_, h0⟩ | ⟨m, s, h1, _, h3⟩
+              · simp only [h0]
+              · simp only [h1, h3, revidOfDecode]
+      · simp [hasc] at hd
 
 /-- **Canonical identifiers are fixed points.**  `name <email>` with no `<` in the
 name and no `<`/`>` in the email is returned unchanged (the name may contain `>`). -/
